@@ -140,7 +140,7 @@ def expected_pairs(Tr, Te, max_diff, offset):
 def base_argv(case, files, out_zip, cfg):
     o = case["opts"]
     argv = list(files)
-    argv += ["-r", o["relation"]]
+    argv += ["--pose_relation", o["relation"]]
     if o.get("align"):
         argv.append("--align")
     if o.get("correct_scale"):
